@@ -4,8 +4,8 @@
    vm_compute sweep over all deltas of the grid [-R,R]^2 x widths 0..W (Proofs/ThicklineGrid*.v)
    proves [thick_ok] for every line of the property's quantifier domain, wherever it starts. *)
 From EG Require Import Base.Prelude Base.Lemmas Model.Geometry Model.Style Model.Line Model.Thickline
-                       Proofs.Geometry Proofs.Line Proofs.Thickline.
-From Coq Require Import ZifyBool Sorting.Mergesort Orders Permutation FinFun.
+                       Proofs.Geometry Proofs.Line Proofs.Thickline Proofs.ThicklineNoDup Proofs.ThicklineRot.
+From Coq Require Import ZifyBool FinFun.
 
 Set Default Timeout 60.
 
@@ -38,29 +38,13 @@ Definition thick_ok (l : line) (w : Z) : Prop :=
     (2 <= w -> middle_ok l w ps).
 
 (* OPEN: forall l w, line_ok l -> 0 <= w -> thick_ok l w   (all lines, all widths).
-   Proved only on the finite domain |dx|,|dy| <= 14, w <= 9 (thick_ok_grid, C17_thick_grid_partial).
+   Proved only on the finite domain |dx|,|dy| <= 24, w <= 16 (thick_ok_grid, C17_thick_grid_partial).
    What is proved for ALL lines and widths (Proofs/Thickline.v): width 0 / width 1, the stroke starts with the thin
    line, <= 3w+2 parallels (termination), translation equivariance.  A general proof of NoDup needs the phase
    invariant between adjacent parallels (left_error/right_error vs. the perpendicular Bresenham state); a general
    distance bound needs the balance of left and right parallels; neither was attempted. *)
 
 (* ---- the checker ---------------------------------------------------------------- *)
-Module ZOrder <: TotalLeBool.
-  Definition t := Z.
-  Definition leb := Z.leb.
-  Theorem leb_total : forall a1 a2, leb a1 a2 = true \/ leb a2 a1 = true.
-  Proof. intros. unfold leb. lia. Qed.
-End ZOrder.
-Module ZSort := Sort ZOrder.
-
-Fixpoint ssb (l : list Z) : bool :=
-  match l with
-  | [] => true
-  | x :: t => match t with [] => true | y :: _ => (x <? y) && ssb t end
-  end.
-Definition pkey (p : point) : Z := px p * 1048576 + py p.
-Definition nodup_b (ps : list point) : bool := ssb (ZSort.sort (map pkey ps)).
-
 Definition cd_of (sx sy dx dy : Z) (p : point) : Z * Z :=
   ((px p - sx) * dy - (py p - sy) * dx, (px p - sx) * dx + (py p - sy) * dy).
 Definition dist_c (n w5 : Z) (cd : Z * Z) : bool := 4 * (fst cd * fst cd) <=? w5 * n.
@@ -83,7 +67,6 @@ Definition thick_ok_b (l : line) (w : Z) : bool :=
   | None => false
   | Some ps =>
       let n := len2 l in
-      nodup_b ps &&
       if n =? 0 then
         forallb (zero_dist_b l w) ps &&
         ((w <? 2) || match map py ps with [] => false | y :: ys => w - 2 <=? zmax_list ys y - zmin_list ys y end)
@@ -94,27 +77,6 @@ Definition thick_ok_b (l : line) (w : Z) : bool :=
   end.
 
 (* ---- soundness -------------------------------------------------------------------- *)
-Lemma ssb_lb x t : ssb (x :: t) = true -> forall y, In y t -> x < y.
-Proof.
-  revert x. induction t as [|a t IH]; intros x H y Hy; [contradiction|].
-  cbn [ssb] in H. apply andb_prop in H. destruct H as [H1 H2].
-  destruct Hy as [<-|Hy]; [lia|]. specialize (IH a H2 y Hy). lia.
-Qed.
-
-Lemma ssb_NoDup l : ssb l = true -> NoDup l.
-Proof.
-  induction l as [|x t IH]; intros H; constructor.
-  - intros Hin. pose proof (ssb_lb x t H x Hin). lia.
-  - apply IH. destruct t as [|y t]; [reflexivity|]. cbn [ssb] in H. apply andb_prop in H. apply H.
-Qed.
-
-Lemma nodup_b_sound ps : nodup_b ps = true -> NoDup ps.
-Proof.
-  unfold nodup_b. intros H. apply ssb_NoDup in H.
-  apply (NoDup_map_inv pkey). eapply Permutation_NoDup; [|exact H].
-  apply Permutation_sym, ZSort.Permuted_sort.
-Qed.
-
 Lemma zmax_list_in l : forall a, In (zmax_list l a) (a :: l).
 Proof.
   unfold zmax_list. induction l as [|x l IH]; intros a; cbn [fold_left]; [left; reflexivity|].
@@ -139,9 +101,9 @@ Proof. unfold len2. nia. Qed.
 
 Lemma thick_ok_b_sound l w : thick_ok_b l w = true -> thick_ok l w.
 Proof.
-  unfold thick_ok_b, thick_ok. destruct (thick_points l w) as [ps|]; [|discriminate].
-  cbv zeta. intros H. apply andb_prop in H. destruct H as [HN H].
-  exists ps. split; [reflexivity|]. split; [apply nodup_b_sound; exact HN|].
+  unfold thick_ok_b, thick_ok. destruct (thick_points l w) as [ps|] eqn:E0; [|discriminate].
+  cbv zeta. intros H.
+  exists ps. split; [reflexivity|]. split; [apply (thick_points_NoDup l w); exact E0|].
   destruct (len2 l =? 0) eqn:Z0.
   - (* zero length *)
     assert (Z1 : len2 l = 0) by lia. destruct (len2_zero l Z1) as [X0 Y0].
@@ -243,4 +205,121 @@ Proof.
   rewrite forallb_forall in H. specialize (H (ldy l) ltac:(apply In_range; lia)).
   rewrite forallb_forall in H. specialize (H w ltac:(apply In_range; lia)).
   rewrite (line_as_translate l). apply thick_ok_translate, thick_ok_b_sound, H.
+Qed.
+
+(* ---- invariance under rotation by 90 degrees (generic lines) ---------------------------------- *)
+Lemma ldx_rot l : ldx (rot_line l) = - ldy l.
+Proof. unfold ldx, ldy, rot_line, rot. cbn [l_start l_end px py]. lia. Qed.
+Lemma ldy_rot l : ldy (rot_line l) = ldx l.
+Proof. unfold ldx, ldy, rot_line, rot. cbn [l_start l_end px py]. lia. Qed.
+Lemma cross_rot l p : cross_to (rot_line l) (rot p) = cross_to l p.
+Proof. unfold cross_to. rewrite ldx_rot, ldy_rot. unfold rot_line, rot. cbn [l_start l_end px py]. ring. Qed.
+Lemma dot_rot l p : dot_to (rot_line l) (rot p) = dot_to l p.
+Proof. unfold dot_to. rewrite ldx_rot, ldy_rot. unfold rot_line, rot. cbn [l_start l_end px py]. ring. Qed.
+Lemma len2_rot l : len2 (rot_line l) = len2 l.
+Proof. unfold len2. rewrite ldx_rot, ldy_rot. ring. Qed.
+
+Lemma rot_inj : Injective rot.
+Proof. intros [a b] [a' b'] H. unfold rot in H. cbn [px py] in H. injection H as H1 H2. f_equal; lia. Qed.
+
+Lemma generic_len2 l : generic l -> len2 l <> 0.
+Proof. unfold generic, len2. nia. Qed.
+
+Lemma thick_ok_rot l w : generic l -> thick_ok l w -> thick_ok (rot_line l) w.
+Proof.
+  intros G (ps & E & ND & HP & HM). exists (map rot ps).
+  pose proof (generic_len2 l G) as NZ.
+  split; [rewrite (thick_points_rot l w G), E; reflexivity|].
+  split; [apply Injective_map_NoDup; [apply rot_inj | exact ND]|].
+  split.
+  - intros p' Hp'. apply in_map_iff in Hp'. destruct Hp' as (p & <- & Hp).
+    destruct (HP p Hp) as [[D1 D2] [E1 E2]].
+    unfold dist_ok, ends_ok. rewrite cross_rot, dot_rot, len2_rot.
+    repeat split; try assumption. intros Z. contradiction.
+  - intros Hw. destruct (HM Hw) as (p & q & P1 & Q1 & P2 & Q2 & W1 & W2).
+    exists (rot p), (rot q). unfold mid_ok in *.
+    rewrite !cross_rot, !dot_rot, len2_rot.
+    repeat split; try assumption; try (apply in_map; assumption).
+    intros Z. contradiction.
+Qed.
+
+(* ---- sweeps over one quadrant + the axis-parallel and diagonal lines ----------------------------- *)
+Definition diag_b (R W : Z) : bool :=
+  forallb (fun k => forallb (fun w => thick_ok_b (L (P 0 0) (P k k)) w && thick_ok_b (L (P 0 0) (P k (- k))) w)
+                            (range 0 (W + 1))) (range (- R) (R + 1)).
+
+Lemma origin_line_ok dx dy w l : thick_ok (L (P 0 0) (P dx dy)) w -> ldx l = dx -> ldy l = dy -> thick_ok l w.
+Proof.
+  intros H <- <-. rewrite (line_as_translate l). apply thick_ok_translate, H.
+Qed.
+
+Lemma rot_origin a b : rot_line (L (P 0 0) (P a b)) = L (P 0 0) (P (- b) a).
+Proof. reflexivity. Qed.
+
+Lemma generic_origin a b : a <> 0 -> b <> 0 -> Z.abs a <> Z.abs b -> generic (L (P 0 0) (P a b)).
+Proof. unfold generic, ldx, ldy. cbn [l_start l_end px py]. lia. Qed.
+
+Theorem thick_ok_sym R W :
+  grid_b 1 (R + 1) 1 (R + 1) W = true ->          (* first quadrant *)
+  grid_b 0 1 (- R) (R + 1) W = true ->            (* vertical lines (and zero length) *)
+  grid_b (- R) (R + 1) 0 1 W = true ->            (* horizontal lines *)
+  diag_b R W = true ->                            (* diagonals *)
+  forall l w, - R <= ldx l <= R -> - R <= ldy l <= R -> 0 <= w <= W -> thick_ok l w.
+Proof.
+  intros Q1 AX1 AX2 DG l w Hx Hy Hw.
+  destruct (Z.eq_dec (ldx l) 0) as [X0|X0]; [apply (grid_b_sound _ _ _ _ _ AX1); lia|].
+  destruct (Z.eq_dec (ldy l) 0) as [Y0|Y0]; [apply (grid_b_sound _ _ _ _ _ AX2); lia|].
+  destruct (Z.eq_dec (Z.abs (ldx l)) (Z.abs (ldy l))) as [DD|DD].
+  - (* diagonal *)
+    unfold diag_b in DG. rewrite forallb_forall in DG. specialize (DG (ldx l) ltac:(apply In_range; lia)).
+    rewrite forallb_forall in DG. specialize (DG w ltac:(apply In_range; lia)).
+    apply andb_prop in DG. destruct DG as [D1 D2].
+    destruct (Z.eq_dec (ldy l) (ldx l)) as [E|E].
+    + apply (origin_line_ok (ldx l) (ldx l)); [apply thick_ok_b_sound, D1 | reflexivity | exact E].
+    + apply (origin_line_ok (ldx l) (- ldx l)); [apply thick_ok_b_sound, D2 | reflexivity | lia].
+  - (* generic: rotate a first-quadrant line *)
+    assert (QQ : forall a b, 1 <= a <= R -> 1 <= b <= R -> thick_ok (L (P 0 0) (P a b)) w).
+    { intros a b Ha Hb. apply (grid_b_sound _ _ _ _ _ Q1); unfold ldx, ldy; cbn [l_start l_end px py]; lia. }
+    destruct (Z_lt_ge_dec 0 (ldx l)) as [XP|XN]; destruct (Z_lt_ge_dec 0 (ldy l)) as [YP|YN].
+    + apply (origin_line_ok (ldx l) (ldy l)); [apply QQ; lia | reflexivity | reflexivity].
+    + (* dx > 0, dy < 0: three quarter turns of (-dy, dx) *)
+      apply (origin_line_ok (ldx l) (ldy l)); [| reflexivity | reflexivity].
+      replace (L (P 0 0) (P (ldx l) (ldy l)))
+        with (rot_line (rot_line (rot_line (L (P 0 0) (P (- ldy l) (ldx l))))))
+        by (rewrite !rot_origin; f_equal; f_equal; lia).
+      apply thick_ok_rot; [rewrite !rot_origin; apply generic_origin; lia|].
+      apply thick_ok_rot; [rewrite !rot_origin; apply generic_origin; lia|].
+      apply thick_ok_rot; [apply generic_origin; lia|]. apply QQ; lia.
+    + (* dx < 0, dy > 0: one quarter turn of (dy, -dx) *)
+      apply (origin_line_ok (ldx l) (ldy l)); [| reflexivity | reflexivity].
+      replace (L (P 0 0) (P (ldx l) (ldy l))) with (rot_line (L (P 0 0) (P (ldy l) (- ldx l))))
+        by (rewrite !rot_origin; f_equal; f_equal; lia).
+      apply thick_ok_rot; [apply generic_origin; lia|]. apply QQ; lia.
+    + (* dx < 0, dy < 0: half turn of (-dx, -dy) *)
+      apply (origin_line_ok (ldx l) (ldy l)); [| reflexivity | reflexivity].
+      replace (L (P 0 0) (P (ldx l) (ldy l))) with (rot_line (rot_line (L (P 0 0) (P (- ldx l) (- ldy l)))))
+        by (rewrite !rot_origin; f_equal; f_equal; lia).
+      apply thick_ok_rot; [rewrite !rot_origin; apply generic_origin; lia|].
+      apply thick_ok_rot; [apply generic_origin; lia|]. apply QQ; lia.
+Qed.
+
+(* the property's distance bound w/2 + 2.5 fails on the model (and on the implementation) from width 34 on *)
+Lemma thick_distance_refuted : exists l w ps p,
+  (34 <=? w) = true /\ thick_points l w = Some ps /\ In p ps /\ ~ dist_ok l w p.
+Proof.
+  exists (L (P 0 0) (P 24 11)), 34.
+  assert (H : match thick_points (L (P 0 0) (P 24 11)) 34 with
+              | Some ps => existsb (point_eqb (P 12 (-16))) ps | None => false end = true)
+    by (vm_compute; reflexivity).
+  destruct (thick_points (L (P 0 0) (P 24 11)) 34) as [ps|]; [|discriminate H].
+  exists ps, (P 12 (-16)). split; [reflexivity|]. split; [reflexivity|]. split.
+  - apply existsb_exists in H. destruct H as ([qx qy] & Hq & Eq). unfold point_eqb in Eq. cbn [px py] in Eq.
+    assert (qx = 12 /\ qy = -16) as [-> ->] by lia. exact Hq.
+  - intros [Hd _]. vm_compute in Hd. apply Hd. reflexivity.
+Qed.
+
+Lemma grid_b_app x0 xm x1 y0 y1 W : x0 <= xm <= x1 ->
+  grid_b x0 xm y0 y1 W = true -> grid_b xm x1 y0 y1 W = true -> grid_b x0 x1 y0 y1 W = true.
+Proof.
+  intros H A B. unfold grid_b in *. rewrite (range_app x0 xm x1 H), forallb_app, A, B. reflexivity.
 Qed.
